@@ -112,28 +112,13 @@ def declare(master, slave, rel):
         ut.add_worm_gear_mating(master=master, slave=slave, friction_coefficient=rel['f'])
 
 
-def build(spec, hooks=True):
-    """returns Built with .motor .elements .pt .last and logs; raises what gearpy raises"""
-    G_ = g()
-    b = Built()
-    b.spec = spec
-    b.load_log = []           # (t_si, pos_si, speed_si) as passed by the solver
-    b.rule_log = []           # per apply_rules round: list of proposals
-    b.probe_log = []          # per recorded instant
-    b.elements = [make_element(spec['motor'])]
-    for e in spec['chain']:
-        b.elements.append(make_element(e))
-    for i, e in enumerate(spec['chain']):
-        declare(b.elements[i], b.elements[i + 1], e['rel'])
-    b.motor, b.last = b.elements[0], b.elements[-1]
-    load = spec['load']
+def make_load(b, load):
+    """a NEW load function object for the load description `load` (logs every call it receives in b.load_log)"""
     lu = load['unit']
     fac = SI.FACT['Torque'][lu]
-    Torque = G_.un.Torque
+    Torque = g().un.Torque
     log = b.load_log
     units_cycle = load.get('units_cycle')
-
-    b.max_calls = None
 
     def external_torque(time, angular_position, angular_speed):
         t, p, w = si(time), si(angular_position), si(angular_speed)
@@ -146,6 +131,94 @@ def build(spec, hooks=True):
             u_ = units_cycle[len(b.pt.time) % len(units_cycle)]    # a load function whose branches return different torque units (keyed by the instant, so that a rerun sees the same units)
             return Torque(load_value(load, t, p, w) / SI.FACT['Torque'][u_], u_)
         return Torque(load_value(load, t, p, w) / fac, lu)
+    return external_torque
+
+
+TOUCHABLE = ('inertia_moment', 'no_load_speed', 'maximum_torque', 'no_load_electric_current', 'maximum_electric_current',
+             'module', 'face_width', 'elastic_modulus')
+
+
+def touch_constants(b, spec):
+    """The user reads constants back from the assembled elements and converts the returned quantities in place (a parts list
+    printed in other units). The elements are physically the same afterwards. Angles are left alone: the library validates
+    them by equality against table rows at computation time, which is defect D9's ground (recorded under C05/C07)."""
+    import random as _r
+    rng = _r.Random(spec['touch_constants'])
+    for el, e in zip(b.elements, [spec['motor']] + list(spec['chain'])):
+        names = list(TOUCHABLE) + (['reference_diameter'] if e['type'] == 'wormgear' else [])
+        for a in names:
+            obj = getattr(el, a, None)
+            if obj is None or not hasattr(obj, 'to') or rng.random() < 0.5:
+                continue
+            us = [u for u in SI.units(type(obj).__name__) if u != obj.unit]
+            obj.to(rng.choice(us), inplace=True)
+            b.touched += 1
+
+
+def prior_design(b, spec):
+    """An earlier design of the same pieces: before the relations of the scenario are declared, some adjacent pairs are
+    first related in ANOTHER legal way (same pair, same direction), which the final declaration then replaces as a whole.
+    Only replacements after which no documented state of the earlier relation is left are used: a gear mating becomes a
+    fixed joint only between gears without a module (no force / stress computation looks at the stale mating role)."""
+    import random as _r
+    rng = _r.Random(spec['prior_design'])
+    ut = g().ut
+    chain = [spec['motor']] + list(spec['chain'])
+    for i, e in enumerate(spec['chain']):
+        if rng.random() < 0.3:
+            continue
+        m, s_ = b.elements[i], b.elements[i + 1]
+        em, es = chain[i], chain[i + 1]
+        rel = e['rel']
+        try:
+            if rel['type'] == 'joint':
+                if em.get('type') in ('spur', 'helical') and es.get('type') == em.get('type') and 'module' not in em and 'module' not in es \
+                        and em.get('helix') == es.get('helix'):
+                    # efficiency 1: add_fixed_joint documents (and sets) links and ratio only, so a lossy earlier mating would
+                    # leave its efficiency on the slave and no property says what a joint's efficiency is (DESIGN Appendix B)
+                    ut.add_gear_mating(master=m, slave=s_, efficiency=rng.choice([1, 1.0]))
+                    b.prior_design.append((i, 'gear->joint'))
+            elif rel['type'] == 'gear':
+                if rng.random() < 0.5:
+                    ut.add_fixed_joint(master=m, slave=s_)
+                    b.prior_design.append((i, 'joint->gear'))
+                else:
+                    ut.add_gear_mating(master=m, slave=s_, efficiency=rng.choice([0.9, 0.5, 1, 0.123]))
+                    b.prior_design.append((i, 'gear->gear'))
+            else:
+                if rng.random() < 0.3:
+                    ut.add_fixed_joint(master=m, slave=s_)
+                    b.prior_design.append((i, 'joint->worm'))
+                else:
+                    ut.add_worm_gear_mating(master=m, slave=s_, friction_coefficient=rng.choice([0.0, 0.02, 0.3, 0.6, 0.9]))
+                    b.prior_design.append((i, 'worm->worm'))
+        except ValueError:
+            b.prior_design.append((i, 'rejected'))
+
+
+def build(spec, hooks=True):
+    """returns Built with .motor .elements .pt .last and logs; raises what gearpy raises"""
+    G_ = g()
+    b = Built()
+    b.spec = spec
+    b.load_log = []           # (t_si, pos_si, speed_si) as passed by the solver
+    b.rule_log = []           # per apply_rules round: list of proposals
+    b.probe_log = []          # per recorded instant
+    b.elements = [make_element(spec['motor'])]
+    for e in spec['chain']:
+        b.elements.append(make_element(e))
+    b.prior_design = []
+    if spec.get('prior_design') is not None:
+        prior_design(b, spec)
+    for i, e in enumerate(spec['chain']):
+        declare(b.elements[i], b.elements[i + 1], e['rel'])
+    b.motor, b.last = b.elements[0], b.elements[-1]
+    b.touched = 0
+    if spec.get('touch_constants') is not None:
+        touch_constants(b, spec)
+    b.max_calls = None
+    b.cur_load = spec['load']
+    external_torque = make_load(b, spec['load'])
     # The order of the public calls a user makes is free wherever the API allows it; `spec['order']` (an integer) selects one
     # of the legal orders: load callback and initial conditions before or after assembling the powertrain; solver, control
     # and stop condition in any order afterwards.
@@ -355,6 +428,7 @@ def extract(b, raw=False):
     tr.time_kinds = [type(t).__name__ for t in pt.time]
     tr.n = len(tr.time)
     tr.self_locking = pt.self_locking
+    tr.load = getattr(b, 'cur_load', None)
     tr.els = []
     tr.bad_kind = []
     for el in pt.elements:
@@ -426,6 +500,10 @@ def run_schedule(b, on_capture=None):
             apply_ic(b, op.get('units'))
         elif o == 'newsolver':
             b.solver = g().Solver(powertrain=b.pt)
+        elif o == 'setload':
+            # the user assigns ANOTHER load function to the loaded element (between two histories)
+            b.cur_load = op['load']
+            b.last.external_torque = make_load(b, op['load'])
         elif o == 'setpwm':
             b.motor.pwm = op['value']              # the user changes the duty cycle between two runs
         elif o == 'export':
